@@ -22,7 +22,8 @@ RESULT_VARIANTS = [[0, 'Ok'], [1, 'Err']]
 
 ITER_CONSUMERS = ('Iterator::for_each', 'Iterator::any', 'Iterator::all', 'Iterator::find',
                   'Iterator::find_map')
-ITER_ADAPTORS = ('Iterator::filter', 'Iterator::map', 'Iterator::filter_map', 'Iterator::inspect')
+ITER_ADAPTORS = ('Iterator::filter', 'Iterator::map', 'Iterator::filter_map', 'Iterator::inspect',
+                 'Iterator::map_while')
 VALUE_COMBINATORS = ('Option::map', 'Option::map_or', 'Option::map_or_else', 'Option::and_then',
                      'Option::is_some_and', 'Option::is_none_or', 'Option::unwrap_or_else', 'Option::filter',
                      'Option::or_else', 'Option::ok_or_else', 'Option::get_or_insert_with', 'bool::then',
@@ -353,7 +354,8 @@ class Desugarer:
         entry, n_in = self.gen_next(B, handle, mid, span)
         n_out = B.local('std::option::Option<_>')
         none_bb = B.block([assign(n_out, agg_variant(OPT, 'None', []), span)], goto(after, span))
-        x = B.local(self.param_ty(clos, 0) if kind in ('Iterator::map', 'Iterator::filter_map') else '_')
+        x = B.local(self.param_ty(clos, 0) if kind in ('Iterator::map', 'Iterator::filter_map',
+                                                       'Iterator::map_while') else '_')
         get_x = assign(x, use(mv(n_in, *downcast('Some', 1, OPT))), span)
         if kind in ('Iterator::filter', 'Iterator::inspect'):
             xr = B.local('&_')
@@ -378,7 +380,9 @@ class Desugarer:
             yes = B.block([assign(n_out, agg_variant(OPT, 'Some', [mv(r, *downcast('Some', 1, OPT))]), span)],
                           goto(after, span))
             test = B.block([assign(d, {'k': 'discr', 'place': P(r), 'adt': OPT, 'variants': OPTION_VARIANTS}, span)],
-                           {'k': 'switch', 'discr': mv(d), 'targets': [[0, entry], [1, yes]],
+                           {'k': 'switch', 'discr': mv(d),
+                            # (map_while: the first None ends the walk; filter_map: it skips the element)
+                            'targets': [[0, none_bb if kind == 'Iterator::map_while' else entry], [1, yes]],
                             'otherwise': unreachable, 'span': span, 'exp': True})
             call = self.splice(B, clos, [mv(x)], P(r), test, span)
             some_bb = B.block([get_x], goto(call, span))
@@ -428,10 +432,18 @@ class Desugarer:
             return False
         after = B.reserve()
         entry, n = self.gen_next(B, handle, after, span)
-        x = B.local(self.param_ty(clos, 0) or '_')
+        x = B.local(self.param_ty(clos, 1 if kind == 'Iterator::fold' else 0) or '_')
         get_x = assign(x, use(mv(n, *downcast('Some', 1, OPT))), span)
         dest, target = t['dest'], t['target']
-        if kind == 'Iterator::for_each':
+        if kind == 'Iterator::fold':
+            acc = B.local(self.param_ty(clos, 0) or '_')
+            nxt = B.local(self.param_ty(clos, 0) or '_')
+            step = B.block([assign(acc, use(mv(nxt)), span)], goto(entry, span))
+            call = self.splice(B, clos, [mv(acc), mv(x)], P(nxt), step, span)
+            some_bb = B.block([get_x], goto(call, span))
+            exit_bb = B.block([assign_place(dest, use(mv(acc)), span)], goto(target, span))
+            B.blocks[bi] = dict(B.blocks[bi], stmts=B.blocks[bi]['stmts'] + [assign(acc, use(t['args'][1]), span)])
+        elif kind == 'Iterator::for_each':
             tmp = B.local('()')
             call = self.splice(B, clos, [mv(x)], P(tmp), entry, span)
             some_bb = B.block([get_x], goto(call, span))
@@ -664,6 +676,13 @@ class Desugarer:
                 clos = self.closure_of(B, t['args'][1])
                 if clos and self.should_expand(clos[0], kind, B.j):
                     if self.expand_consumer(B, bi, t, kind, clos):
+                        return True
+                continue
+            if _is(callee, ('Iterator::fold',)) and len(t['args']) == 3:
+                # it.fold(init, |acc, x| body): `let mut acc = init; for x in it { acc = body(acc, x) } acc`
+                clos = self.closure_of(B, t['args'][2])
+                if clos and self.should_expand(clos[0], 'Iterator::fold', B.j):
+                    if self.expand_consumer(B, bi, t, 'Iterator::fold', clos):
                         return True
                 continue
             kind = _is(callee, VALUE_COMBINATORS)
